@@ -1228,7 +1228,7 @@ func init() {
 		ruleProgressResume(r)
 		ruleProgressTimeLimit(r)
 		r.support([]string{"gc-flush-first", "togc", "freelist-consume", "entry-applied", "free-after-index", "gc-mark-guard", "scan-framing", "merge-framing", "span-pair",
-			"cancel-not-completion", "completion", "reap-true-means-empty", "bucket-scan-covers", "mark-file-matches", "scan-complete-before-truncate", "go-handshake", "config-wiring", "primary-mark", "flush-nowork", "race", "handover-owners", "errors-not-dropped"})
+			"cancel-not-completion", "completion", "reap-true-means-empty", "bucket-scan-covers", "mark-file-matches", "scan-complete-before-truncate", "go-handshake", "config-wiring", "primary-mark", "flush-nowork", "race", "handover-owners", "errors-not-dropped", "flush-waits"})
 	},
 		"Decides only the SHAPE progress of the collectors rests on, each rule a necessary condition (if it is violated some history ending in files without live data is never reclaimed however many cycles run): the supervisors re-arm their timer after every finished cycle and every cycle calls the collector and signals completion; files in which the freelist pass marked records leave the visited set, and deleteRecords records every file it marked in; the three file loops start at the header's first file (or the resume point), advance by one file and pass over a file only for a stated reason (visited / still referenced / unreadable / already empty); an empty oldest file is unlinked in the same pass; zero-length files and files cut at offset 0 are reported empty; a completed scan that found a trailing free span truncates; unreferenced index records are marked in the same pass; relocation of the last live records is skipped only for the stated reasons and the low-use test has the form 100*free >= percent*(...); an index pass stopped by the time limit records and later uses its resume point. NOT decided: the number of cycles, byte counts, the fixed point, 'GC never increases storage', or that these shapes suffice for progress.")
 }
